@@ -4,7 +4,7 @@ From Coq Require Import Arith List Bool.
 From QV.Core Require Import OF Sums Mat Cplx Psd.
 From QV.Model Require Import QObj HermEmbed C18_Lindblad.
 From QV.Proofs Require Import C18_Algebra C18_Misc C18_Action C18_Extract C18_Rebuild C18_Verdict C18_Convert C18_Physical
-  C18_Hermitian.
+  C18_Hermitian C18_JumpHK C18_TaylorHP.
 Import ListNotations.
 
 Section Bundle.
@@ -63,6 +63,15 @@ Proof. intros HH HJ L. split.
   - intros a b. now apply (parts_sum_hjk_B F d Hd B sd). Qed.
 End Basis.
 
+(* jump operators in (H, K) form *)
+Lemma jump_hk_form (d : nat) : (0 < d)%nat -> forall (B : nat -> cmat) (l : list (Cx * (nat -> Cx))),
+  meq (d * d) (d * d) (jump_d d (jumps_ops d B l)) (lcb_hk d B (jumps_H d B l) (jumps_K l)) /\
+  hermitian d (jumps_H d B l) /\ hermitian (d * d - 1) (jumps_K l) /\
+  (forall (rho : cmat) i j, (i < d)%nat -> (j < d)%nat ->
+     gksl_jump d (jumps_ops d B l) rho i j = gksl d B (jumps_H d B l) (jumps_K l) rho i j).
+Proof. intros Hd B l. split; [now apply jumps_as_hk|]. split; [apply jumps_H_herm|]. split; [apply jumps_K_herm|].
+  intros rho i j Hi Hj. now apply jumps_gksl_as_hk. Qed.
+
 Lemma sparse_tables_eq (d : nat) (B : nat -> cmat) (K : cmat) :
   (forall s t, (t < d * d)%nat -> k_part_sparse d B K s t = k_part d B K s t) /\
   (forall i j, (j < d)%nat -> j_of_k_sparse d B K i j = j_of_k d B K i j).
@@ -96,6 +105,20 @@ Lemma psd_certificate_all k (X Y : rmat) : symmetric F k X -> symmetric F k Y ->
 Proof. intros HX HY. split.
   - intros Z eps delta HZ HP Hd HZp. now apply psd_proj_certificate.
   - intros HP Hd. split; [intros Z HZ HZp; now apply psd_proj_exact|intros HYp; now apply psd_proj_fixes_psd]. Qed.
+
+(* Taylor partial sums in the computational basis: Hermiticity preserving and trace preserving as MAPS, for every N;
+   Hermiticity-preserving maps are closed under real polynomials in general *)
+Lemma taylor_cb_all (d : nat) : (0 < d)%nat -> forall (B : nat -> cmat),
+  (forall (c : nat -> F) (L : cmat) N, hp_sup d L -> hp_sup d (cpoly_sum (d * d) c L N)) /\
+  (forall (c : nat -> F) (L X : cmat) N, ta_sup d L ->
+     mtrace d (apply_cb d (cpoly_sum (d * d) c L N) X) = cmul Cx (zof (c 0%nat)) (mtrace d X)) /\
+  (forall (H K : cmat) N, hermitian d H -> hermitian (d * d - 1) K ->
+     let T := cpoly_sum (d * d) (fun k => kdiv F (c1 F) (ffact F k)) (lcb_hk d B H K) N in
+     hp_sup d (lcb_hk d B H K) /\ ta_sup d (lcb_hk d B H K) /\
+     hp_sup d T /\ (forall X : cmat, mtrace d (apply_cb d T X) = mtrace d X)).
+Proof. intros Hd B. split; [intros; now apply hp_cpoly|]. split; [intros; now apply tp_cpoly|].
+  intros H K N HH HK T. split; [now apply hp_lcb_hk|]. split; [now apply ta_lcb_hk|].
+  exact (taylor_cb_hp_tp F d Hd B H K N HH HK). Qed.
 
 Lemma taylor_all (frz : rmat -> rmat) n : (forall M i j, (i < n)%nat -> (j < n)%nat -> frz M i j = M i j) ->
   forall (L : rmat) N,
